@@ -57,6 +57,9 @@ def work(ctx, tier):
         if k % 3 == 0:
             sc["cfg"]["no_retry"] = True
         sc["fault"] = {"kind": "cb", "cb": rng.choice(["astart", "aend", "aend", "abort_if"]), "at": rng.choice([0, 1, 2, "always"]), "exc": rng.choice(["RuntimeError", "ValueError", "KeyError"])}
+        if k % 5 == 0:
+            # an interrupt (KeyboardInterrupt / SystemExit / CancelledError) arriving inside an observability hook
+            sc["fault"] = {"kind": "hook", "hook": rng.choice(["metric", "log"]), "at": rng.randint(0, 6), "exc": rng.choice(["kbd", "sysexit", "cancel"])}
         sc["poll"] = True
         if k % 4 == 0:
             sc["cfg"]["breaker"]["falsy"] = True
@@ -71,8 +74,8 @@ def work(ctx, tier):
                 n = len(spy) - 1
                 ctx.cnt["attempt_hook_fault_calls"] += 1
                 if n != 1:
-                    ctx.viol("multiple-records" if n > 1 else "no-record", f"[{e} call#{rec.idx}] {sc['fault']['cb']} hook raised; admitted call reported {n} times: {spy[1:]}", common.payload(sc, e, rec.idx))
-                elif sc["fault"]["cb"] == "astart" and sc["fault"]["at"] == "always" and not sc["cfg"].get("no_retry"):
+                    ctx.viol("multiple-records" if n > 1 else "no-record", f"[{e} call#{rec.idx}] {sc['fault'].get('cb') or sc['fault'].get('hook')} raised {sc['fault']['exc']}; admitted call reported {n} times: {spy[1:]}", common.payload(sc, e, rec.idx))
+                elif sc["fault"].get("cb") == "astart" and sc["fault"]["at"] == "always" and not sc["cfg"].get("no_retry"):
                     # every attempt's start hook raises an ordinary error: the call failed (it was neither aborted nor cancelled)
                     kind, val = rec.final
                     aborted = (kind == "return" and getattr(getattr(val, "stop_reason", None), "value", None) == "ABORTED") or (kind == "raise" and type(val).__name__ == "AbortRetryError")
